@@ -243,6 +243,33 @@ def readTextUniv (A : FArith) (data : List Nat) (bs : Option Nat) : Option (List
     let ls ← blocks.mapM univLines
     pure ls.flatten
 
+/-! ## several files: `files_per_partition`, `include_path`, blocksize -/
+
+/-- `toolz`-free grouping `files[start : start + n] for start in range(0, len(files), n)` (fuel = length) -/
+def groupsOf (n : Nat) : Nat → List α → List (List α)
+  | 0, _ => []
+  | fuel + 1, xs => if xs.isEmpty then [] else xs.take n :: groupsOf n fuel (xs.drop n)
+
+/-- `read_text(paths, blocksize=None, linedelimiter=d, files_per_partition=fpp, include_path=True)`:
+    the partitions, every line paired with the index of its file (`include_path=False` is the projection
+    to the lines). `none` = ValueError (`files_per_partition=0`: `range()` step 0) / empty separator. -/
+def readTextFiles (d : List Nat) (files : List (List Nat)) (fpp : Option Nat) : Option (List (List (Nat × List Nat))) :=
+  if d.isEmpty then none
+  else
+    let one := fun (fi : List Nat × Nat) => ((decode d fi.1).getD []).map fun l => (fi.2, l)
+    match fpp with
+    | none => some (files.zipIdx.map one)
+    | some 0 => none
+    | some (n + 1) => some ((groupsOf (n + 1) files.length files.zipIdx).map fun g => g.flatMap one)
+
+/-- `read_text(paths, blocksize=b, linedelimiter=d, include_path=True)`: one partition per block, files in order -/
+def readTextFilesBlocks (A : FArith) (d : List Nat) (files : List (List Nat)) (b : Nat) :
+    Option (List (List (Nat × List Nat))) :=
+  if d.isEmpty then none
+  else (files.zipIdx.mapM fun fi =>
+      (fileBlocks A fi.1 d (some b)).map fun blocks => blocks.map fun blk => ((decode d blk).getD []).map fun l => (fi.2, l)).map
+    fun pss => if pss.flatten.isEmpty then [[]] else pss.flatten
+
 /-- does `d` have a border (a proper non-empty prefix that is also a suffix)? -/
 def hasBorder (d : List Nat) : Bool :=
   (List.range d.length).any fun k => 0 < k && d.take k == d.drop (d.length - k)
